@@ -222,7 +222,7 @@ class ModelIter:
         self.pos += 1
       else:
         self.dead = True
-      raise ValueError('UserError')
+      raise ValueError(7)
     if self.pos >= self.n:
       raise StopIteration(self.ret)
     v = self.base + self.pos
